@@ -287,6 +287,12 @@ func (session *ServerCommandSession) handleAnnounce(requestCtx nazahttp.HttpReqM
 		return err
 	}
 
+	// 一个连接只允许一次ANNOUNCE或DESCRIBE，否则之前的session会一直留在上层得不到清理
+	if session.pubSession != nil || session.subSession != nil {
+		Log.Errorf("[%s] ANNOUNCE but session already exist.", session.uniqueKey)
+		return nazaerrors.Wrap(base.ErrRtsp)
+	}
+
 	session.pubSession = NewPubSession(urlCtx, session)
 	Log.Infof("[%s] link new PubSession. [%s]", session.uniqueKey, session.pubSession.UniqueKey())
 	session.pubSession.InitWithSdp(sdpCtx)
@@ -324,6 +330,12 @@ func (session *ServerCommandSession) handleDescribe(requestCtx nazahttp.HttpReqM
 	if err != nil {
 		Log.Errorf("[%s] parse presentation failed. uri=%s", session.uniqueKey, requestCtx.Uri)
 		return err
+	}
+
+	// 一个连接只允许一次ANNOUNCE或DESCRIBE，否则之前的session会一直留在上层得不到清理
+	if session.pubSession != nil || session.subSession != nil {
+		Log.Errorf("[%s] DESCRIBE but session already exist.", session.uniqueKey)
+		return nazaerrors.Wrap(base.ErrRtsp)
 	}
 
 	session.describeSeq = requestCtx.Headers.Get(HeaderCSeq)
